@@ -75,6 +75,19 @@ def h_req_from_tc(ctx):
     r = RequestId.from_pus_tc(tc)
     raw = tc.pack()
     ctx.holds("request id of a TC == first four octets of its packet", sym_and(r.pack() == raw[:4], r.as_u32() == from_be(items_of(raw)[:4])))
+    # a TC with any version bits / sequence flags in its header (built from a header, or decoded)
+    from spacepackets.ccsds.spacepacket import PacketType, SequenceFlags
+    ver, sf = ctx.int("ver", 0, 7), ctx.int("seqflags", 0, 3)
+    hdr = SpacePacketHeader(packet_type=PacketType.TC, apid=apid, seq_count=sc, data_len=0, sec_header_flag=True,
+                            seq_flags=en(ctx, SequenceFlags, sf), ccsds_version=ver)
+    tc2 = PusTc.from_sp_header(hdr, 17, 1, ctx.octets("data2", 1))
+    raw2 = tc2.pack()
+    r2 = RequestId.from_pus_tc(tc2)
+    ctx.holds("request id of a TC built from a header (any version, any sequence flags) == its first four octets; all routes agree", sym_and(
+        r2.pack() == raw2[:4], r2.as_u32() == from_be(items_of(raw2)[:4]), r2 == RequestId.from_sp_header(tc2.sp_header),
+        r2 == RequestId.unpack(raw2[:4]), raw2[0] == ((ver << 5) | 0x18 | (apid >> 8))))
+    e, tc3 = call(PusTc.unpack, raw2)
+    ctx.holds("...and of the decoded TC", e is None and sym_and(RequestId.from_pus_tc(tc3).pack() == raw2[:4], RequestId.from_pus_tc(tc3) == r2), exc_name(e))
 
 
 _FIELD_CLS = {1: PacketFieldU8, 2: PacketFieldU16, 4: PacketFieldU32}
